@@ -160,6 +160,18 @@ func rulePolicy(cx *Ctx) {
 			trues, _ := predsMatching(o, func(a string) bool {
 				return strings.HasPrefix(a, "(") && strings.Contains(a, "windowWeightedSize") && strings.Contains(a, ">load(param:p.windowMaximum")
 			})
+			// the candidate handed to the main space's admission is the first entry that LEFT the window on this path
+			if !o.Cut && !o.Panic && len(o.Rets) == 1 {
+				var movedNodes []string
+				for _, e := range o.S.trace {
+					if _, n, ok := dequeCall(e, "PushBack"); ok {
+						movedNodes = append(movedNodes, n)
+					}
+				}
+				ret := o.Rets[0]
+				okRet := (len(movedNodes) == 0 && (ret == "nil" || ret == "zero")) || (len(movedNodes) > 0 && ret == movedNodes[0])
+				aw.check("returns the first transferred entry", okRet, "evictFromWindow returns the first node it moved into probation (nil when it moved none): the admission contest is about entries that really left the window", fmt.Sprintf("returns %s, moved %v", ret, movedNodes), o)
+			}
 			aw.check("moves ≤ guarded iterations", moves <= len(trues), "each transfer belongs to an iteration whose guard windowWeightedSize > windowMaximum was true", fmt.Sprintf("%d move(s), %d true guard(s)", moves, len(trues)), o)
 		}
 		aw.flush()
